@@ -370,7 +370,7 @@ func rulePair(w *World, r *Report, pkg *ssa.Package, tag string) {
 				return
 			}
 			sf := staticCallee(c)
-			if sf == nil || fnPkg(sf) != pkg.Pkg || sf.Blocks == nil || sf.Parent() != nil || sf.Name() == "writePointer" {
+			if sf == nil || fnPkg(sf) != pkg.Pkg || sf.Blocks == nil || sf.Parent() != nil || w.helperIs(sf, "writePointer") {
 				return
 			}
 			if hl := opLiterals(sf, pkg); len(hl) > 0 {
@@ -389,7 +389,7 @@ func rulePair(w *World, r *Report, pkg *ssa.Package, tag string) {
 		r.Bad(rule, fnName(fn)+":literals", w.Pos(fn.Pos()), fmt.Sprintf("only %d JSON Patch op literals found", len(lits)))
 		return
 	}
-	wp := pkg.Func("writePointer")
+	wp := w.FuncOpt(pkg, "writePointer")
 	for i, l := range lits {
 		fromWP := func(v ssa.Value) bool {
 			if ex, ok := strip(v).(*ssa.Extract); ok && ex.Index == 0 {
@@ -774,7 +774,6 @@ func rulePrepend(w *World, r *Report, pkg *ssa.Package) {
 
 // ---------------------------------------------------------------- R-MERGEHUNK
 
-
 // hunkMergeFlag: the DiffElement literal a has Metadata{Merge: true} stored.
 func hunkMergeFlag(a *ssa.Alloc) bool {
 	for _, ref := range *a.Referrers() {
@@ -889,7 +888,7 @@ func ruleMergeHunkDiff(w *World, r *Report, pkg *ssa.Package) {
 					case *ssa.Store:
 						if name == "Remove" && !isEmptySlice(u.Val) {
 							if c, ok := strip(u.Val).(*ssa.Call); ok {
-								if sf := staticCallee(c); sf != nil && sf.Name() == "nodeList" && len(c.Call.Args) == 1 && isEmptySlice(c.Call.Args[0]) {
+								if sf := staticCallee(c); sf != nil && w.helperIs(sf, "nodeList") && len(c.Call.Args) == 1 && isEmptySlice(c.Call.Args[0]) {
 									continue
 								}
 							}
@@ -952,7 +951,7 @@ func ruleMergeRender(w *World, r *Report, pkg *ssa.Package) {
 		if !ok {
 			return
 		}
-		if sf := staticCallee(c); sf != nil && sf.Name() == "isVoid" {
+		if sf := staticCallee(c); sf != nil && w.helperIs(sf, "isVoid") {
 			for _, b := range fn.Blocks {
 				if cond, tE, _, okb := branchEdges(b); okb && cond == ssa.Value(c) {
 					// on the true edge a jsonNull is produced
@@ -991,12 +990,48 @@ func ruleMergeRender(w *World, r *Report, pkg *ssa.Package) {
 // ruleMergeRead: readMergeInto marks every hunk as merge and maps null to void.
 func ruleMergeRead(w *World, r *Report, pkg *ssa.Package) {
 	const rule = "R-MERGEHUNK"
-	fn := w.Func(pkg, "readMergeInto")
+	// scope: the exported merge reader, its closures and the unexported
+	// functions of the package it reaches by static calls (the recursive
+	// walk over the merge document, however it is organised)
+	entry := w.Func(pkg, "ReadMergeString")
+	fn := entry
+	var scope []*ssa.Function
+	{
+		seen := map[*ssa.Function]bool{entry: true}
+		work := []*ssa.Function{entry}
+		for len(work) > 0 {
+			f := work[0]
+			work = work[1:]
+			withClosures(f, func(cf *ssa.Function) {
+				scope = append(scope, cf)
+				allInstrs(cf, func(in ssa.Instruction) {
+					c, ok := in.(ssa.CallInstruction)
+					if !ok {
+						return
+					}
+					sf := staticCallee(c)
+					if sf == nil || sf.Blocks == nil || sf.Parent() != nil || fnPkg(sf) != pkg.Pkg || seen[sf] {
+						return
+					}
+					if obj, _ := sf.Object().(*types.Func); obj == nil || obj.Exported() {
+						return
+					}
+					seen[sf] = true
+					work = append(work, sf)
+				})
+			})
+		}
+	}
+	if f := w.FuncOpt(pkg, "readMergeInto"); f != nil {
+		fn = f
+	}
 	r.Fn(fnName(fn))
 	h := newHunkType(pkg)
 	n := 0
 	var allIn []ssa.Instruction
-	withClosures(fn, func(f *ssa.Function) { allInstrs(f, func(in ssa.Instruction) { allIn = append(allIn, in) }) })
+	for _, f := range scope {
+		allInstrs(f, func(in ssa.Instruction) { allIn = append(allIn, in) })
+	}
 	for _, in := range allIn {
 		a, ok := in.(*ssa.Alloc)
 		if !ok || !types.Identical(a.Type().(*types.Pointer).Elem(), h.named) {
@@ -1012,14 +1047,15 @@ func ruleMergeRead(w *World, r *Report, pkg *ssa.Package) {
 	}
 	// null -> void: the value stored for a leaf is a phi/variable that receives voidNode on the isNull-true edge
 	conv := false
-	allInstrs(fn, func(in ssa.Instruction) {
+	for _, in := range allIn {
 		c, ok := in.(*ssa.Call)
 		if !ok {
-			return
+			continue
 		}
-		if sf := staticCallee(c); sf == nil || sf.Name() != "isNull" {
-			return
+		if sf := staticCallee(c); sf == nil || !w.helperIs(sf, "isNull") {
+			continue
 		}
+		fn := c.Parent()
 		for _, b := range fn.Blocks {
 			cond, tE, _, okb := branchEdges(b)
 			if !okb || cond != ssa.Value(c) {
@@ -1049,7 +1085,7 @@ func ruleMergeRead(w *World, r *Report, pkg *ssa.Package) {
 				}
 			}
 		}
-	})
+	}
 	r.Check(conv, rule, fnName(fn)+":null-becomes-void", w.Pos(fn.Pos()), "a null in the merge patch becomes a void addition (delete the member)", "null values of a merge patch are no longer turned into deletions")
 }
 
@@ -1104,7 +1140,7 @@ func rulePtrAgree(w *World, r *Report, pkg *ssa.Package) {
 				}
 			case *ssa.Call:
 				if isStringArgCall(x) && calleeFullName(x) != "builtin:len" {
-					if sf := staticCallee(x); sf == nil || (sf.Name() != "isVoid" && sf.Name() != "isNull") {
+					if sf := staticCallee(x); sf == nil || (!w.helperIs(sf, "isVoid") && !w.helperIs(sf, "isNull")) {
 						out[calleeFullName(x)] = true
 					}
 				}
